@@ -843,6 +843,11 @@ def _setpos_cases(arg):
         own = pos(f) or [1, 0]
         c = rng.random()
         new = [own[0], max(0, own[1] + rng.choice([1, 2, 3, -1]))] if c < 0.7 else [own[0] + rng.choice([1, 2]), rng.randint(0, 9)]
+        # keep the new position inside the source: sibling lookup (next / prev) computes the location of siblings
+        # without own location from the text around them and is only defined for positions that exist
+        if new[0] > len(root._lines):
+            new[0] = len(root._lines)
+        new[1] = min(new[1], len(root._lines[new[0] - 1].encode()))
         c = rng.random()
         if c < 0.4:
             old = None
@@ -864,6 +869,18 @@ def _setpos_cases(arg):
         on_chain = {id(g) for g in chain_f}
         touched = [i for i, g in enumerate(chain_f) if 'sentinel' not in g._cache]
         outside = sum(1 for g in allf if id(g) not in on_chain and 'sentinel' not in g._cache)
+        # `hasSib` is an input of the model, measured before the call; the call itself asks next() / prev() on the
+        # partly written tree.  Where the answer depends on the positions just written (siblings without own
+        # location), the input is not well defined for this case: skip it, and say so in the tally
+        try:
+            for g in allf:
+                g._cache.clear()
+            sib_after = [(g.next() if end else g.prev()) is not None for g in chain_f]
+        except Exception:
+            sib_after = None
+        if sib_after != [c[2] for c in chain]:
+            out.append((None, None, end))
+            continue
         out.append(({'f': 'C02.set_pos', 'chain': chain, 'new': new, 'old': old},
                     {'touched': touched, 'pos': [pos(g) for g in chain_f], 'outside': outside}, end))
     return out
@@ -873,6 +890,10 @@ def corr_setpos(ctx, progs, per):
     name = '_set_end_pos / _set_start_pos vs Pfst.SetPos.setPos'
     res = pmap(_setpos_cases, [(p, ctx.rng.randrange(1 << 30), per) for p in progs])
     items = [it for lst in res for it in lst]
+    for it in items:
+        if it[0] is None:
+            ctx.tally('set_pos', 'skipped:sibling-answer-depends-on-written-position')
+    items = [it for it in items if it[0] is not None]
     cases = [it[0] for it in items]
     try:
         outs = ctx.lean(cases)
